@@ -221,3 +221,110 @@ vproof! {
         kani::cover!(kk <= nn - kk && n <= nn / 2, "no reduction");
     }
 }
+
+// ------------------------------------------------------------------------------------------
+// C02: the centre of H2PE and the HIN/H2PE switch.  m must be the mode of the reduced problem,
+// floor((k+1)(n1+1)/(N+2)) (Kachitvichyanukul & Schmeiser), judged in exact integer arithmetic; H2PE is used iff
+// m - max(0, k - n2) >= 10.  For N < 2^26 the f64 quotient has the same floor as the exact one.
+// ------------------------------------------------------------------------------------------
+macro_rules! c02_hyper_mode {
+    ($name:ident, $lo:expr, $bound:expr) => {
+vproof! {
+    #[kani::stub(fraction_of_products_of_factorials, stub_fpf)]
+    #[kani::stub(ln_of_factorial, stub_lnfac)]
+    fn $name() {
+        let nn: u64 = kani::any();
+        let kk: u64 = kani::any();
+        let n: u64 = kani::any();
+        kani::assume(nn <= $bound && nn >= $lo && kk <= nn && n <= nn);
+        let d = match Hypergeometric::new(nn, kk, n) { Ok(d) => d, Err(_) => return };
+        let (n1, n2, k) = (d.n1 as u32, d.n2 as u32, d.k as u32);
+        let mode = ((k + 1) * (n1 + 1)) / (nn as u32 + 2);
+        let lo = if k > n2 { k - n2 } else { 0 };
+        match d.sampling_method {
+            SamplingMethod::InverseTransform { .. } => {
+                vassert!(mode - lo < 10, "Hypergeometric::new: HIN chosen although mode - max(0, k-n2) >= 10");
+            }
+            SamplingMethod::RejectionAcceptance { m, .. } => {
+                vassert!(mode - lo >= 10, "Hypergeometric::new: H2PE chosen although mode - max(0, k-n2) < 10");
+                vassert!(m == mode as f64, "Hypergeometric::new: H2PE is centred on a value that is not the mode floor((k+1)(n1+1)/(N+2))");
+            }
+        }
+        kani::cover!(matches!(d.sampling_method, SamplingMethod::RejectionAcceptance { .. }), "H2PE");
+        kani::cover!(matches!(d.sampling_method, SamplingMethod::InverseTransform { .. }) && mode >= 9, "HIN just below the switch");
+    }
+}
+    };
+}
+//@ id: c02_hypergeometric_mode_n63
+//@ besteffort: yes
+//@ prop: C02
+//@ tier: thorough
+//@ cap: 1500
+//@ funcs: Hypergeometric::new (mode m, HIN/H2PE switch, m stored for H2PE)
+//@ bounds: every (N, K, n) with K, n <= N <= 63
+//@ assumes: fraction_of_products_of_factorials, ln_of_factorial = arbitrary f64 (over-approximation); f64::ln, exp, sqrt by contract
+c02_hyper_mode!(c02_hypergeometric_mode_n63, 0, 63);
+//@ id: c02_hypergeometric_mode_n255
+//@ besteffort: yes
+//@ prop: C02
+//@ tier: thorough
+//@ cap: 1500
+//@ funcs: Hypergeometric::new (mode m, HIN/H2PE switch, m stored for H2PE)
+//@ bounds: every (N, K, n) with K, n <= N <= 255
+//@ assumes: as c02_hypergeometric_mode_n63
+c02_hyper_mode!(c02_hypergeometric_mode_n255, 0, 255);
+//@ id: c02_hypergeometric_mode_n43
+//@ prop: C02
+//@ tier: quick
+//@ cap: 900
+//@ funcs: Hypergeometric::new (mode m, HIN/H2PE switch, m stored for H2PE)
+//@ bounds: every (K, n) with K, n <= N, N = 43 (the smallest populations on which H2PE is reachable start at N = 38)
+//@ assumes: as c02_hypergeometric_mode_n63
+c02_hyper_mode!(c02_hypergeometric_mode_n43, 43, 43);
+
+// ------------------------------------------------------------------------------------------
+// C05: the HIN walk is bounded by the support, not by the floating-point sum of the pmf terms: for concrete
+// parameter sets the loop is unwound to its exact bound with unwinding assertions ON, for every uniform draw
+// (incl. the largest one, 1 - 2^-53, which exceeds the rounded sum of the pmf terms for some parameter sets).
+// ------------------------------------------------------------------------------------------
+macro_rules! c05_hin_walk {
+    ($name:ident, $nn:expr, $kk:expr, $n:expr, $unw:expr) => {
+        #[kani::proof]
+        #[kani::unwind($unw)]
+        fn $name() {
+            let mut rng = SymRng::new(1);
+            let d = Hypergeometric::new($nn, $kk, $n).unwrap();
+            let x = d.sample(&mut rng);
+            vassert!(x <= $n && x <= $kk, "Hypergeometric(HIN) sample above min(n, K)");
+            vassert!(rng.pos == 1, "Hypergeometric(HIN) consumes exactly one word per sample");
+            kani::cover!(x == 0, "lower end of the support");
+            kani::cover!(x == $n, "upper end of the support");
+        }
+    };
+}
+//@ id: c05_hypergeometric_hin_walk_25_10_5
+//@ prop: C05
+//@ tier: quick
+//@ cap: 900
+//@ funcs: Hypergeometric::new (real fraction_of_products_of_factorials); Hypergeometric::sample (HIN walk)
+//@ bounds: (N, K, n) = (25, 10, 5); every word; all loops unwound 27 times with unwinding assertions ON (the constructor's products need 26, the walk min(n1, k) + 1 = 6)
+//@ assumes: none (no libm call on this path)
+c05_hin_walk!(c05_hypergeometric_hin_walk_25_10_5, 25, 10, 5, 28);
+//@ id: c05_hypergeometric_hin_walk_10_5_3
+//@ prop: C05
+//@ tier: quick
+//@ cap: 900
+//@ funcs: Hypergeometric::new; Hypergeometric::sample (HIN walk)
+//@ bounds: (N, K, n) = (10, 5, 3); every word; unwind 13 with unwinding assertions ON
+//@ assumes: none
+c05_hin_walk!(c05_hypergeometric_hin_walk_10_5_3, 10, 5, 3, 13);
+//@ id: c05_hypergeometric_hin_walk_52_4_5
+//@ besteffort: yes
+//@ prop: C05
+//@ tier: thorough
+//@ cap: 1500
+//@ funcs: Hypergeometric::new; Hypergeometric::sample (HIN walk)
+//@ bounds: (N, K, n) = (52, 4, 5); every word; unwind 58 with unwinding assertions ON
+//@ assumes: none
+c05_hin_walk!(c05_hypergeometric_hin_walk_52_4_5, 52, 4, 5, 58);
